@@ -5,6 +5,7 @@ import (
 	"go/constant"
 	"go/token"
 	"go/types"
+	"math"
 	"strconv"
 	"strings"
 )
@@ -189,6 +190,11 @@ func (e *Engine) evalSpec(env *SpecEnv, x *SExpr) Value {
 		case "-":
 			v := e.evalSpecTerm(env, x.Args[0])
 			if v.Sort.K == KF64 {
+				if strings.HasPrefix(v.S, "|f64:") {
+					var b uint64
+					fmt.Sscanf(v.S, "|f64:%x|", &b)
+					return F64Lit(-math.Float64frombits(b))
+				}
 				return app(SF64, "f64.neg", v)
 			}
 			return Neg(v)
